@@ -1,5 +1,6 @@
 (* Proofs about the text codec model Num/Codec.v (property C06). *)
-From Coq Require Import ZArith List Bool Strings.Byte Lia ZifyBool ZifyNat ZifyN.
+From Coq Require Import Strings.String.
+From Coq Require Import ZArith QArith List Bool Strings.Byte Lia ZifyBool ZifyNat ZifyN.
 From Verif Require Import Base.Wire Base.Int64 Base.Rha Base.RhaProofs Num.Amount Num.AmountProofs Num.Codec.
 Import ListNotations.
 Open Scope Z_scope.
@@ -686,3 +687,349 @@ Proof.
   assert (E2 : (u - u / pow10 e * pow10 e <? 0) = false) by lia. rewrite E2.
   reflexivity.
 Qed.
+
+(* ------------------------------------------------------------------------------------------ *)
+(* J. the shipped parser agrees with the repaired one wherever the latter accepts, except on   *)
+(*    math.MinInt64                                                                            *)
+(* ------------------------------------------------------------------------------------------ *)
+Lemma wrap64_small z : - 9223372036854775808 <= z < 9223372036854775808 -> wrap64 z = z.
+Proof. intros. unfold wrap64. change two64 with 18446744073709551616. change two63 with 9223372036854775808. lia. Qed.
+
+Lemma parse_shipped_mk_text neg i f : good_text i f ->
+  fits64 (text_value neg i f) && Nat.leb (length (frac_digits f)) 18 = true ->
+  text_value neg i f <> min64 ->
+  parse_amount (mk_text neg i f) = Some (mkA (text_value neg i f) (length (frac_digits f))).
+Proof.
+  intros [Hi Hf] F Hm. apply andb_true_iff in F. destruct F as [F Ee]. apply Nat.leb_le in Ee.
+  apply fits64_iff in F. unfold min64 in Hm. change two63 with 9223372036854775808 in Hm.
+  unfold parse_amount, text_value in *.
+  rewrite has_minus_mk_text by exact Hi. rewrite trim_minus_mk_text by exact Hi.
+  change (i ++ frac_text f) with (mk_text false i f).
+  pose proof (vod_bounds i (proj2 Hi)) as Bu.
+  destruct f as [f|]; cbn [frac_digits] in *.
+  - rewrite split_dot_mk_text by (cbn [frac_digits]; first [apply Hi | apply Hf]).
+    cbn [sign_text app].
+    change i with (sign_text false ++ i) at 1. rewrite parse_int64_signed by exact Hi.
+    change f with (sign_text false ++ f) at 1. rewrite parse_int64_signed by exact Hf.
+    pose proof (vod_bounds f (proj2 Hf)) as Bw.
+    rewrite vod_app in *.
+    set (u := value_of_digits i) in *. set (w0 := value_of_digits f) in *.
+    set (e := length f) in *. pose proof (pow10_pos e) as HP. pose proof (pow10_le_18 e Ee) as HP18.
+    rewrite (int_pow10_small e Ee).
+    assert (Hs : 0 <= u * pow10 e + w0 < 9223372036854775808) by (destruct neg; lia).
+    assert (Hu : 0 <= u * pow10 e < 9223372036854775808) by nia.
+    assert (Hu' : u < 9223372036854775808) by nia.
+    assert (E1 : (u <? two63) = true) by (change two63 with 9223372036854775808; lia).
+    assert (E2 : (w0 <? two63) = true) by (change two63 with 9223372036854775808; lia).
+    rewrite E1, E2.
+    rewrite (wrap64_small (u * pow10 e)) by lia.
+    rewrite (wrap64_small (u * pow10 e + w0)) by lia.
+    destruct neg; [rewrite wrap64_small by lia|]; reflexivity.
+  - rewrite split_dot_mk_text by (cbn [frac_digits]; first [apply Hi | reflexivity]).
+    cbn [sign_text app].
+    change i with (sign_text false ++ i) at 1. rewrite parse_int64_signed by exact Hi.
+    rewrite app_nil_r in *.
+    assert (E1 : (value_of_digits i <? two63) = true)
+      by (change two63 with 9223372036854775808; destruct neg; lia).
+    rewrite E1. cbn [length].
+    destruct neg; [rewrite wrap64_small by lia|]; reflexivity.
+Qed.
+
+Lemma parse_shipped_agrees s a : parse_amount_fixed s = Some a -> val a <> min64 -> parse_amount s = Some a.
+Proof.
+  intros H Hm. destruct (parse_fixed_shape s a H) as (i & f & E & G).
+  remember (has_minus s) as neg eqn:Hneg. clear Hneg. subst s.
+  rewrite parse_fixed_mk_text in H by exact G.
+  destruct (fits64 (text_value neg i f) && Nat.leb (length (frac_digits f)) 18) eqn:F; [|discriminate].
+  inversion H. subst a. cbn [val] in Hm. apply parse_shipped_mk_text; auto.
+Qed.
+
+Lemma parse_print_shipped a : amount_ok a = true -> val a <> min64 -> parse_amount (print_amount a) = Some a.
+Proof.
+  intros H Hm. rewrite (print_shipped_eq_fixed a H Hm).
+  apply parse_shipped_agrees; [apply parse_print_fixed, H | exact Hm].
+Qed.
+
+Lemma print_shipped_matches a : amount_ok a = true -> val a <> min64 -> matches_amount_pattern (print_amount a) = true.
+Proof. intros H Hm. rewrite (print_shipped_eq_fixed a H Hm). apply print_fixed_matches, H. Qed.
+
+Lemma string_never_panics a : (exp a <= 18)%nat -> amount_string_panics a = false /\ amount_string_fixed_panics a = false.
+Proof.
+  intros He. unfold amount_string_panics, amount_string_fixed_panics.
+  rewrite (int_pow10_small _ He). pose proof (pow10_pos (exp a)). pose proof (pow10_le_18 _ He).
+  assert (Hp : wrapu64 (pow10 (exp a)) = pow10 (exp a))
+    by (unfold wrapu64; change two64 with 18446744073709551616; apply Z.mod_small; lia).
+  rewrite Hp. assert (E : (pow10 (exp a) =? 0) = false) by lia. rewrite E, !andb_false_r. auto.
+Qed.
+
+(* ------------------------------------------------------------------------------------------ *)
+(* K. percentages                                                                              *)
+(* ------------------------------------------------------------------------------------------ *)
+Lemma pct_from_amount_eq a : pct_from_amount a = mkA (val a) (exp a + 2).
+Proof.
+  unfold pct_from_amount, div. cbn [val exp]. rewrite rescale_exp.
+  rewrite rescale_up_val by lia. replace (exp a + 2 - exp a)%nat with 2%nat by lia.
+  rewrite pow10_0, Z.mul_1_r. change (pow10 2) with 100.
+  rewrite rhaS_pos by lia. rewrite (rha_exact _ 100 (val a)) by lia. reflexivity.
+Qed.
+
+Lemma pct_amount_eq p : pct_amount p = mkA (val p * pow10 (2 - exp p)) (exp p - 2).
+Proof.
+  unfold pct_amount. rewrite mul_int_exact. destruct p as [v e]. cbn [val exp].
+  destruct e as [|[|e]].
+  - reflexivity.
+  - unfold rescale. cbn [val exp Nat.sub Nat.ltb Nat.leb]. change (pow10 1) with 10.
+    rewrite (rha_exact _ 10 (v * 10)) by lia. reflexivity.
+  - unfold rescale. cbn [val exp].
+    replace (S (S e) - 2)%nat with e by lia.
+    assert (L : Nat.ltb e (S (S e)) = true) by (apply Nat.ltb_lt; lia). rewrite L.
+    replace (S (S e) - e)%nat with 2%nat by lia. replace (2 - S (S e))%nat with 0%nat by lia.
+    change (pow10 2) with 100. rewrite pow10_0.
+    rewrite (rha_exact _ 100 v) by lia. rewrite Z.mul_1_r. reflexivity.
+Qed.
+
+Lemma pct_from_amount_pct_amount p :
+  pct_from_amount (pct_amount p) = mkA (val p * pow10 (2 - exp p)) (Nat.max (exp p) 2).
+Proof. rewrite pct_from_amount_eq, pct_amount_eq. cbn [val exp]. f_equal. lia. Qed.
+
+Lemma pct_amount_pct_from_amount a : pct_amount (pct_from_amount a) = a.
+Proof.
+  rewrite pct_from_amount_eq, pct_amount_eq. cbn [val exp].
+  replace (2 - (exp a + 2))%nat with 0%nat by lia. replace (exp a + 2 - 2)%nat with (exp a) by lia.
+  rewrite pow10_0, Z.mul_1_r. destruct a; reflexivity.
+Qed.
+
+Lemma pct_reread_same_value p : Qeq (toQ (pct_from_amount (pct_amount p))) (toQ p).
+Proof.
+  rewrite pct_from_amount_pct_amount. apply toQ_eq_iff. cbn [val exp].
+  rewrite <- Z.mul_assoc, <- pow10_add. f_equal. f_equal. lia.
+Qed.
+
+Lemma parse_pct_with_nonempty pa s : s <> [] ->
+  parse_pct_with pa s =
+  if Byte.eqb (last s x00) b_pct then option_map pct_from_amount (pa (removelast s)) else pa s.
+Proof. destruct s; [contradiction|reflexivity]. Qed.
+
+Lemma matches_pct_nonempty s : s <> [] ->
+  matches_pct_pattern s = Byte.eqb (last s x00) b_pct && matches_amount_pattern (removelast s).
+Proof. destruct s; [contradiction|reflexivity]. Qed.
+
+Lemma app_one_nonempty (x : bytes) c : x ++ [c] <> [].
+Proof. intros H. apply app_eq_nil in H. destruct H; discriminate. Qed.
+
+Lemma parse_pct_suffix pa x : parse_pct_with pa (x ++ [b_pct]) = option_map pct_from_amount (pa x).
+Proof.
+  rewrite parse_pct_with_nonempty by apply app_one_nonempty.
+  rewrite last_last, removelast_last, byte_eqb_refl. reflexivity.
+Qed.
+
+Lemma matches_pct_suffix x : matches_pct_pattern (x ++ [b_pct]) = matches_amount_pattern x.
+Proof.
+  rewrite matches_pct_nonempty by apply app_one_nonempty.
+  rewrite last_last, removelast_last, byte_eqb_refl. reflexivity.
+Qed.
+
+Lemma print_pct_fixed_matches p : amount_ok (pct_amount p) = true -> matches_pct_pattern (print_pct_fixed p) = true.
+Proof. intros H. unfold print_pct_fixed, print_pct_with. rewrite matches_pct_suffix. apply print_fixed_matches, H. Qed.
+
+Lemma parse_print_pct_fixed p : amount_ok (pct_amount p) = true ->
+  parse_pct_fixed (print_pct_fixed p) = Some (pct_from_amount (pct_amount p)).
+Proof.
+  intros H. unfold parse_pct_fixed, print_pct_fixed, print_pct_with. rewrite parse_pct_suffix.
+  rewrite (parse_print_fixed _ H). reflexivity.
+Qed.
+
+Lemma pct_roundtrip_value_fixed p : amount_ok (pct_amount p) = true ->
+  exists q, parse_pct_fixed (print_pct_fixed p) = Some q /\ Qeq (toQ q) (toQ p) /\ exp q = Nat.max (exp p) 2.
+Proof.
+  intros H. exists (pct_from_amount (pct_amount p)). split; [apply parse_print_pct_fixed, H|].
+  split; [apply pct_reread_same_value|]. rewrite pct_from_amount_pct_amount. reflexivity.
+Qed.
+
+Lemma pct_text_stable_fixed p : amount_ok (pct_amount p) = true ->
+  exists q, parse_pct_fixed (print_pct_fixed p) = Some q /\ print_pct_fixed q = print_pct_fixed p.
+Proof.
+  intros H. exists (pct_from_amount (pct_amount p)). split; [apply parse_print_pct_fixed, H|].
+  unfold print_pct_fixed, print_pct_with. rewrite pct_amount_pct_from_amount. reflexivity.
+Qed.
+
+(* a percentage with at least two decimals is read back identically *)
+Lemma pct_roundtrip_exact_fixed p : amount_ok (pct_amount p) = true -> (2 <= exp p)%nat ->
+  parse_pct_fixed (print_pct_fixed p) = Some p.
+Proof.
+  intros H He. rewrite (parse_print_pct_fixed p H), pct_from_amount_pct_amount.
+  replace (2 - exp p)%nat with 0%nat by lia. rewrite pow10_0, Z.mul_1_r.
+  replace (Nat.max (exp p) 2) with (exp p) by lia. destruct p; reflexivity.
+Qed.
+
+(* the exact language the (repaired) percentage reader accepts: the empty text, members of the
+   percentage pattern that fit, and - documented intent - members of the amount pattern *)
+Lemma parse_pct_fixed_language s q :
+  parse_pct_fixed s = Some q <->
+  (s = [] /\ q = mkA 0 0) \/
+  (matches_pct_pattern s = true /\ fits_int64 (removelast s) = true /\
+   q = pct_from_amount (amount_of (removelast s))) \/
+  (s <> [] /\ Byte.eqb (last s x00) b_pct = false /\ matches_amount_pattern s = true /\
+   fits_int64 s = true /\ q = amount_of s).
+Proof.
+  unfold parse_pct_fixed. destruct s as [|b r].
+  - cbn [parse_pct_with matches_pct_pattern]. split.
+    + intros H. inversion H. left. auto.
+    + intros [[_ ->]|[[H _]|[H _]]]; [reflexivity|discriminate|contradiction].
+  - assert (Hn : b :: r <> []) by discriminate. revert Hn. generalize (b :: r) as s. clear b r. intros s Hn.
+    rewrite parse_pct_with_nonempty, matches_pct_nonempty by exact Hn.
+    destruct (Byte.eqb (last s x00) b_pct) eqn:L; cbn [andb].
+    + split.
+      * intros H. destruct (parse_amount_fixed (removelast s)) as [a|] eqn:E; [|discriminate].
+        inversion H. apply parse_fixed_iff in E. destruct E as (M & F & ->). right. left. auto.
+      * intros [[-> _]|[(M & F & ->)|(_ & X & _)]]; [contradiction| |discriminate].
+        assert (E : parse_amount_fixed (removelast s) = Some (amount_of (removelast s)))
+          by (apply parse_fixed_iff; auto).
+        rewrite E. reflexivity.
+    + split.
+      * intros H. apply parse_fixed_iff in H. destruct H as (M & F & ->). right. right. auto.
+      * intros [[-> _]|[(M & _)|(_ & _ & M & F & ->)]]; [contradiction|discriminate|].
+        apply parse_fixed_iff; auto.
+Qed.
+
+(* ------------------------------------------------------------------------------------------ *)
+(* L. the JSON entry points                                                                    *)
+(* ------------------------------------------------------------------------------------------ *)
+Definition quote (s : bytes) : bytes := b_quote :: s ++ [b_quote].
+
+Lemma unquote_quote s : s <> [] -> unquote (quote s) = s.
+Proof.
+  intros Hn. unfold unquote, quote.
+  assert (L : Nat.ltb 2 (length (b_quote :: s ++ [b_quote])) = true).
+  { apply Nat.ltb_lt. cbn [length]. rewrite app_length. cbn [length]. destruct s; [contradiction|cbn [length]; lia]. }
+  rewrite L. cbn [hd tl]. rewrite byte_eqb_refl.
+  change (b_quote :: s ++ [b_quote]) with ((b_quote :: s) ++ [b_quote]).
+  rewrite last_last, byte_eqb_refl. cbn [andb]. apply removelast_last.
+Qed.
+
+Lemma unquote_noquote s : Byte.eqb (hd x00 s) b_quote = false -> unquote s = s.
+Proof. intros H. unfold unquote. rewrite H, andb_false_r. reflexivity. Qed.
+
+Lemma eqb_bytes_eq a : forall b, eqb_bytes a b = true <-> a = b.
+Proof.
+  induction a as [|x a IH]; destruct b as [|y b]; cbn [eqb_bytes]; split; intros H; try discriminate; auto.
+  - apply andb_true_iff in H. destruct H as [H1 H2]. apply byte_eqb_eq in H1. apply IH in H2. congruence.
+  - inversion H. subst. rewrite byte_eqb_refl. cbn [andb]. apply IH. reflexivity.
+Qed.
+
+Lemma member_not_null s : matches_amount_pattern s = true -> eqb_bytes s text_null = false.
+Proof.
+  intros M. destruct (eqb_bytes s text_null) eqn:E; [|reflexivity].
+  apply eqb_bytes_eq in E. subst s. discriminate M.
+Qed.
+
+Lemma unmarshal_text_fixed_iff s a :
+  unmarshal_text parse_amount_fixed s = Rok a <->
+  matches_amount_pattern s = true /\ fits_int64 s = true /\ a = amount_of s.
+Proof.
+  unfold unmarshal_text. split.
+  - destruct (eqb_bytes s text_null); [discriminate|].
+    destruct (parse_amount_fixed s) as [a'|] eqn:E; [|discriminate].
+    intros H. inversion H. subst a'. apply parse_fixed_iff, E.
+  - intros (M & F & ->). rewrite (member_not_null s M).
+    assert (E : parse_amount_fixed s = Some (amount_of s)) by (apply parse_fixed_iff; auto).
+    rewrite E. reflexivity.
+Qed.
+
+Lemma unmarshal_text_null_iff pa s : unmarshal_text pa s = Rnull <-> s = text_null.
+Proof.
+  unfold unmarshal_text. destruct (eqb_bytes s text_null) eqn:E.
+  - apply eqb_bytes_eq in E. tauto.
+  - split; [destruct (pa s); discriminate|]. intros ->. discriminate E.
+Qed.
+
+Lemma unmarshal_text_fixed_err_iff s :
+  unmarshal_text parse_amount_fixed s = Rerr <->
+  s <> text_null /\ ~ (matches_amount_pattern s = true /\ fits_int64 s = true).
+Proof.
+  unfold unmarshal_text. destruct (eqb_bytes s text_null) eqn:E.
+  - apply eqb_bytes_eq in E. split; [discriminate|]. intros [H _]. contradiction.
+  - assert (Hn : s <> text_null) by (intros ->; discriminate E).
+    rewrite <- parse_fixed_rejects_iff. destruct (parse_amount_fixed s); split; try discriminate; auto.
+    intros [_ H]. discriminate.
+Qed.
+
+Lemma hd_mk_text neg i f : good_digits i -> Byte.eqb (hd x00 (mk_text neg i f)) b_quote = false.
+Proof.
+  intros [Hn Hd]. destruct neg; [reflexivity|]. destruct i as [|b r]; [contradiction|].
+  cbn [all_digits forallb] in Hd. apply andb_true_iff in Hd. destruct Hd as [Hb _].
+  cbn. apply (is_digit_not_special b Hb).
+Qed.
+
+Lemma json_quoted_roundtrip a : amount_ok a = true ->
+  unmarshal_json parse_amount_fixed (quote (print_amount_fixed a)) = Rok a.
+Proof.
+  intros H. unfold unmarshal_json. rewrite unquote_quote.
+  - apply unmarshal_text_fixed_iff. apply parse_fixed_iff, parse_print_fixed, H.
+  - rewrite (print_fixed_shape a H). unfold mk_text. intros X.
+    apply app_eq_nil in X. destruct X as [_ X]. apply app_eq_nil in X. destruct X as [X _].
+    exact (digits_of_nonempty _ X).
+Qed.
+
+Lemma json_bare_roundtrip a : amount_ok a = true ->
+  unmarshal_json parse_amount_fixed (print_amount_fixed a) = Rok a.
+Proof.
+  intros H. unfold unmarshal_json. rewrite unquote_noquote.
+  - apply unmarshal_text_fixed_iff. apply parse_fixed_iff, parse_print_fixed, H.
+  - rewrite (print_fixed_shape a H). apply hd_mk_text, print_shape_good.
+Qed.
+
+(* ------------------------------------------------------------------------------------------ *)
+(* M. what is false of the code as shipped (witnesses by computation)                          *)
+(* ------------------------------------------------------------------------------------------ *)
+Definition t (s : string) : bytes := bs s.
+
+Lemma shipped_accepts_plus_sign : parse_amount (t "+5") = Some (mkA 5 0) /\ matches_amount_pattern (t "+5") = false.
+Proof. vm_compute. repeat split. Qed.
+Lemma shipped_accepts_double_minus : parse_amount (t "--5") = Some (mkA 5 0) /\ matches_amount_pattern (t "--5") = false.
+Proof. vm_compute. repeat split. Qed.
+Lemma shipped_accepts_plus_in_fraction : parse_amount (t "1.+5") = Some (mkA 105 2) /\ matches_amount_pattern (t "1.+5") = false.
+Proof. vm_compute. repeat split. Qed.
+Lemma shipped_accepts_minus_in_fraction : parse_amount (t "1.-5") = Some (mkA 95 2) /\ matches_amount_pattern (t "1.-5") = false.
+Proof. vm_compute. repeat split. Qed.
+Lemma shipped_wraps_int64 :
+  parse_amount (t "922337203685477580.75") = Some (mkA (-5) 2) /\
+  matches_amount_pattern (t "922337203685477580.75") = true /\
+  value_of (t "922337203685477580.75") = (92233720368547758075, 2%nat).
+Proof. vm_compute. repeat split. Qed.
+Lemma shipped_wraps_pow10 :
+  parse_amount (t "1.0000000000000000000") = Some (mkA (-8446744073709551616) 19) /\
+  value_of (t "1.0000000000000000000") = (10000000000000000000, 19%nat).
+Proof. vm_compute. repeat split. Qed.
+Lemma shipped_rejects_min_int64 :
+  parse_amount (t "-9223372036854775808") = None /\
+  matches_amount_pattern (t "-9223372036854775808") = true /\ fits_int64 (t "-9223372036854775808") = true.
+Proof. vm_compute. repeat split. Qed.
+Lemma shipped_min_int64_print :
+  print_amount (mkA min64 0) = t "-9223372036854775808" /\ parse_amount (print_amount (mkA min64 0)) = None /\
+  print_amount (mkA min64 1) = t "--922337203685477580.-8" /\ matches_amount_pattern (print_amount (mkA min64 1)) = false /\
+  parse_amount (print_amount (mkA min64 1)) = Some (mkA (-72) 2).
+Proof. vm_compute. repeat split. Qed.
+Lemma shipped_parse_then_string_panics :
+  parse_amount (t "0.0000000000000000000000000000000000000000000000000000000000000000") = Some (mkA 0 64) /\
+  amount_string_panics (mkA 0 64) = true.
+Proof. vm_compute. repeat split. Qed.
+Lemma pct_without_symbol_accepted :
+  parse_pct (t "0.16") = Some (mkA 16 2) /\ parse_pct_fixed (t "0.16") = Some (mkA 16 2) /\
+  matches_pct_pattern (t "0.16") = false /\
+  parse_pct (t "") = Some (mkA 0 0) /\ parse_pct_fixed (t "") = Some (mkA 0 0) /\ matches_pct_pattern (t "") = false.
+Proof. vm_compute. repeat split. Qed.
+Lemma quoted_null_accepted :
+  unmarshal_json parse_amount (quote text_null) = Rnull /\ unmarshal_json parse_amount_fixed (quote text_null) = Rnull /\
+  matches_amount_pattern text_null = false.
+Proof. vm_compute. repeat split. Qed.
+(* the repaired functions on the same witnesses *)
+Lemma fixed_on_witnesses :
+  parse_amount_fixed (t "+5") = None /\ parse_amount_fixed (t "--5") = None /\
+  parse_amount_fixed (t "1.+5") = None /\ parse_amount_fixed (t "1.-5") = None /\
+  parse_amount_fixed (t "922337203685477580.75") = None /\
+  parse_amount_fixed (t "1.0000000000000000000") = None /\
+  parse_amount_fixed (t "-9223372036854775808") = Some (mkA min64 0) /\
+  print_amount_fixed (mkA min64 1) = t "-922337203685477580.8" /\
+  parse_amount_fixed (t "-922337203685477580.8") = Some (mkA min64 1).
+Proof. vm_compute. repeat split. Qed.
